@@ -328,6 +328,14 @@ S("private_helpers_renamed", [(m, a, b, -1) for a, b in (("_remove_helper", "_re
 S("private_attributes_renamed", [(m, a, b, -1) for a, b in (("_temp_handle", "_staging"), ("_handle", "_fh"),
                                                              ("_temp_memory", "_staged"), ("_memory", "_rows"))
                                  for m in (ST,)])
+S("more_private_methods_renamed", [(IDX, "_insert_time", "_index_time", -1), (IDX, "_remove_tags", "_prune_tags", -1),
+                                   (IDX, "_update_fields", "_renumber_fields", -1),
+                                   (ST, "_swap_temp_with_primary", "_publish_staged", -1), (DB, "_swap_temp_with_primary", "_publish_staged", -1),
+                                   (ST, "_init_temp_storage", "_begin_staging", -1), (DB, "_init_temp_storage", "_begin_staging", -1),
+                                   (ST, "_cleanup_temp_storage", "_end_staging", -1), (DB, "_cleanup_temp_storage", "_end_staging", -1),
+                                   (PT, "_validate_kwargs", "_check_kwargs", -1),
+                                   (PT, "_serialize_to_list", "_to_row", -1), (ST, "_serialize_to_list", "_to_row", -1),
+                                   (PT, "_deserialize_from_list", "_from_row", -1), (ST, "_deserialize_from_list", "_from_row", -1)])
 S("index_position_array_renamed", [(IDX, "_storage_pos_sorted_by_ts", "_positions_by_time", -1)])
 
 # ---- round 3: selection guards, unowned staging file, two-site temporary-list leak
@@ -351,6 +359,32 @@ F("memory_temp_leak_two_sites", [(ST, '        """Initialize temporary storage."
                                   "        rst = method(self, *args, **kwargs)\n        self._storage._cleanup_temp_storage()\n        return rst\n", 0)],
   ["C15", "C11", "C13", "C02", "C03"])
 
+# ---- round 4: aliasing, projections, exception-discarding control flow, gates, identity images
+F("index_reset_aliases_arrays", [(IDX, "        self._timestamps = []\n        self._storage_pos_sorted_by_ts = []\n        self._valid = True\n        return\n",
+                                  "        self._timestamps = self._storage_pos_sorted_by_ts = []\n        self._valid = True\n        return\n", 0)],
+  ["C06", "C01", "C07", "C02"])
+F("point_init_aliases_slots", [(PT, "            self._tags = {}\n            self._fields = {}\n", "            self._tags = self._fields = {}\n", 0)],
+  ["C14", "C03", "C05"])
+F("deserialize_measurement_strips", [(ST, "        return row[self._measurement_idx]\n", "        return row[self._measurement_idx].strip()\n", 0)],
+  ["C10", "C01", "C07", "C02", "C03"])
+F("exit_returns_in_finally", [(DB, "        if self._open:\n            self.close()\n        return\n",
+                               "        try:\n            if self._open:\n                self.close()\n        finally:\n            self._open = False\n            return\n", 0)],
+  ["C13", "C11", "C15"])
+F("create_file_ungated", [(ST, "        if any((i in self._mode for i in ('+', 'w', 'a'))):\n            create_file(path, create_dirs=create_dirs)\n",
+                           "        create_file(path, create_dirs=create_dirs)\n", 0)], ["C15"])
+F("measurement_remove_all_fast_path", [(MS, "        return self._db.drop_measurement(self._name)\n",
+                                        "        if not len(self):\n            return 0\n        return self._db.drop_measurement(self._name)\n", 0)],
+  ["C10", "C15"])
+F("test_identity_by_qualname", [(QR, "hashval=(self._point_attr, 'test', self._path, func, args))",
+                                 "hashval=(self._point_attr, 'test', self._path, getattr(func, '__qualname__', func), args))", 0)], ["C17"])
+F("find_gt_negative_shortcut", [(UT, "    i = bisect.bisect_right(sorted_list, x)\n    if i != len(sorted_list):\n        return i\n    return None\n",
+                                 "    if x < 0:\n        return 0 if sorted_list else None\n    i = bisect.bisect_right(sorted_list, x)\n    if i != len(sorted_list):\n        return i\n    return None\n", 0)],
+  ["C18", "C01"])
+S("find_gt_tail_fast_path_correct", [(UT, "    i = bisect.bisect_right(sorted_list, x)\n    if i != len(sorted_list):\n        return i\n    return None\n",
+                                      "    if not sorted_list or sorted_list[-1] <= x:\n        return None\n    i = bisect.bisect_right(sorted_list, x)\n    if i != len(sorted_list):\n        return i\n    return None\n", 0)])
+S("find_ge_len_alias", [(UT, "    i = bisect.bisect_left(sorted_list, x)\n    if i != len(sorted_list):\n        return i\n    return None",
+                         "    i = bisect.bisect_left(sorted_list, x)\n    n = len(sorted_list)\n    if i < n:\n        return i\n    return None", 0)])
+
 # ----------------------------------------------------------------- property dependencies
 # A breach of a discipline is reported under every property it is a necessary condition of
 # (e.g. a stale-but-valid index breaks C06 and therefore also the index-served answers of C01/C07;
@@ -369,7 +403,7 @@ RELABEL = {
     "no_flush_before_copy": (None, ["C01", "C02", "C03", "C06"]),
     "reopen_with_original_mode": (None, ["C01", "C02", "C03", "C06"]),
     "remove_swap_failure_keeps_index_": (None, []),
-    "memory_update_helper_write_primary": (None, ["C12", "C06", "C13"] + IDXDEP),
+    "memory_update_helper_write_primary": (None, ["C12", "C06", "C13", "C14", "C08", "C16"] + IDXDEP),
     "insert_reads_storage": (None, ["C15", "C12", "C06", "C01"]),
     "insert_ungated": (None, ["C11", "C06", "C01"]),
     "reset_writes_data": (None, ["C15", "C13", "C06", "C11", "C02"] + IDXDEP),
@@ -379,11 +413,11 @@ RELABEL = {
     "build_fields_off_by_one": (None, ["C07"]),
     "append_without_seek_end": (["C04", "C16", "C12", "C07", "C11", "C01"], []),
     "update_rewrites_unconditionally": (None, ["C15"]),
-    "update_time_not_normalised": (None, ["C01"]),
-    "insert_default_time_naive": (None, ["C04", "C01"]),
-    "compact_tag_prefix_ambiguous": (None, ["C01"]),
-    "field_prefix_strip_wrong_len": (None, ["C01"]),
-    "fields_written_before_tags": (None, ["C01"]),
+    "update_time_not_normalised": (None, ["C01", "C05"]),
+    "insert_default_time_naive": (None, ["C04", "C01", "C05"]),
+    "compact_tag_prefix_ambiguous": (None, ["C01", "C07"]),
+    "field_prefix_strip_wrong_len": (None, ["C01", "C07"]),
+    "fields_written_before_tags": (None, ["C01", "C07"]),
 }
 for _v in V:
     if _v.name in RELABEL:
